@@ -9,6 +9,7 @@ import (
 	"io"
 	"os"
 	"os/exec"
+	"regexp"
 	"strconv"
 	"strings"
 	"time"
@@ -32,6 +33,9 @@ type Solver struct {
 	timeout int // ms
 	log     io.Writer
 	kind    string
+	lines   [][]string // declare/define/assert lines per level (for the fallback solver)
+	fbModel map[string]uint64
+	fbUsed  int
 }
 
 func NewSolver(kind string, timeoutMs int) (*Solver, error) {
@@ -81,6 +85,12 @@ func (s *Solver) Close() {
 func (s *Solver) send(line string) {
 	s.buf.WriteString(line)
 	s.buf.WriteByte('\n')
+	if len(line) > 3 && (line[1] == 'd' || line[1] == 'a') { // declare-const, define-fun, assert
+		if len(s.lines) == 0 {
+			s.lines = [][]string{nil}
+		}
+		s.lines[len(s.lines)-1] = append(s.lines[len(s.lines)-1], line)
+	}
 }
 
 func (s *Solver) flush() {
@@ -102,6 +112,10 @@ func (s *Solver) Level() int { return len(s.levels) - 1 }
 func (s *Solver) Push() {
 	s.send("(push 1)")
 	s.levels = append(s.levels, nil)
+	if len(s.lines) == 0 {
+		s.lines = [][]string{nil}
+	}
+	s.lines = append(s.lines, nil)
 }
 
 func (s *Solver) Pop() {
@@ -113,6 +127,9 @@ func (s *Solver) Pop() {
 		delete(s.emitted, id)
 	}
 	s.levels = s.levels[:len(s.levels)-1]
+	if len(s.lines) > 1 {
+		s.lines = s.lines[:len(s.lines)-1]
+	}
 	s.send("(pop 1)")
 }
 
@@ -236,11 +253,15 @@ func (s *Solver) Check() SatResult {
 		}
 		break
 	}
-	s.stats.Time += time.Since(start)
 	if s.sawErr {
 		res = Unknown
 		s.sawErr = false
 	}
+	s.fbModel = nil
+	if res == Unknown && s.kind != "cvc5" {
+		res = s.fallback()
+	}
+	s.stats.Time += time.Since(start)
 	switch res {
 	case Sat:
 		s.stats.Sat++
@@ -264,8 +285,73 @@ func (s *Solver) CheckWith(extra *Term) SatResult {
 	return r
 }
 
+// fallback re-decides the current context with a one-shot cvc5 (much stronger on comparison-heavy
+// 64-bit arithmetic); on sat the values of all declared variables are kept for Model.
+func (s *Solver) fallback() SatResult {
+	var sb strings.Builder
+	sb.WriteString("(set-logic QF_BV)\n(set-option :produce-models true)\n")
+	var names []string
+	for _, lv := range s.lines {
+		for _, l := range lv {
+			sb.WriteString(l)
+			sb.WriteByte('\n')
+			if strings.HasPrefix(l, "(declare-const ") {
+				rest := l[len("(declare-const "):]
+				if i := strings.Index(rest[1:], "|"); i >= 0 && rest[0] == '|' {
+					names = append(names, rest[:i+2])
+				}
+			}
+		}
+	}
+	sb.WriteString("(check-sat)\n")
+	if len(names) > 0 {
+		sb.WriteString("(get-value (" + strings.Join(names, " ") + "))\n")
+	}
+	tl := s.timeout * 3
+	cmd := exec.Command("cvc5", "--lang=smt2", fmt.Sprintf("--tlimit=%d", tl))
+	cmd.Stdin = strings.NewReader(sb.String())
+	out, _ := cmd.Output()
+	s.fbUsed++
+	txt := string(out)
+	first, rest, _ := strings.Cut(txt, "\n")
+	switch strings.TrimSpace(first) {
+	case "unsat":
+		return Unsat
+	case "sat":
+		s.fbModel = parseValues(rest)
+		return Sat
+	}
+	return Unknown
+}
+
+var valueRe = regexp.MustCompile(`\(\s*(\|[^|]*\||[^\s()|]+)\s+(#x[0-9a-fA-F]+|#b[01]+|true|false)\s*\)`)
+
+func parseValues(txt string) map[string]uint64 {
+	m := map[string]uint64{}
+	for _, mt := range valueRe.FindAllStringSubmatch(txt, -1) {
+		name := strings.Trim(mt[1], "|")
+		val := mt[2]
+		switch {
+		case val == "true":
+			m[name] = 1
+		case val == "false":
+			m[name] = 0
+		case strings.HasPrefix(val, "#x"):
+			u, _ := strconv.ParseUint(val[2:], 16, 64)
+			m[name] = u
+		case strings.HasPrefix(val, "#b"):
+			u, _ := strconv.ParseUint(val[2:], 2, 64)
+			m[name] = u
+		}
+	}
+	return m
+}
+
 // Model returns values of the given variables after a Sat answer (must be called before pop).
 func (s *Solver) Model(vars []*Term) map[string]uint64 {
+	if s.fbModel != nil {
+		return s.fbModel
+	}
 	m := map[string]uint64{}
 	if len(vars) == 0 {
 		return m
@@ -295,43 +381,8 @@ func (s *Solver) Model(vars []*Term) map[string]uint64 {
 		}
 		sb.WriteString(line)
 	}
-	txt := sb.String()
-	// parse pairs (|name| value)
-	i := 0
-	for i < len(txt) {
-		j := strings.IndexByte(txt[i:], '|')
-		if j < 0 {
-			break
-		}
-		i += j + 1
-		k := strings.IndexByte(txt[i:], '|')
-		if k < 0 {
-			break
-		}
-		name := txt[i : i+k]
-		i += k + 1
-		// skip spaces
-		for i < len(txt) && (txt[i] == ' ' || txt[i] == '\n') {
-			i++
-		}
-		e := i
-		for e < len(txt) && txt[e] != ')' && txt[e] != '\n' {
-			e++
-		}
-		val := strings.TrimSpace(txt[i:e])
-		i = e
-		switch {
-		case val == "true":
-			m[name] = 1
-		case val == "false":
-			m[name] = 0
-		case strings.HasPrefix(val, "#x"):
-			u, _ := strconv.ParseUint(val[2:], 16, 64)
-			m[name] = u
-		case strings.HasPrefix(val, "#b"):
-			u, _ := strconv.ParseUint(val[2:], 2, 64)
-			m[name] = u
-		}
+	for k, v := range parseValues(sb.String()) {
+		m[k] = v
 	}
 	return m
 }
